@@ -30,7 +30,11 @@ def run_one(m, verbose=False):
     ev = tempfile.mkdtemp(prefix="shred-mut-ev.")
     try:
         subprocess.check_call(["rsync", "-a", "--exclude", "target", "--exclude", ".git", "/repo/", scratch + "/"])
-        for ed in m["edits"]:
+        if m.get("patch"):
+            pp = subprocess.run(["patch", "-p1", "-d", scratch, "-i", os.path.join(VERIF, m["patch"])], stdout=subprocess.PIPE, stderr=subprocess.STDOUT)
+            if pp.returncode != 0:
+                return "SKIP", "patch %s does not apply" % m["patch"]
+        for ed in m.get("edits", []):
             p = os.path.join(scratch, ed["file"])
             with open(p) as f:
                 t = f.read()
